@@ -414,6 +414,8 @@ func runC12(c *Ctx) {
 		r.Discharge("W4", "CreateTempFile/chmod", c.P.pos(ctf.Pos()), "every success return passes os.Chmod with the mode of os.Stat(target)")
 	}
 
+	ruleW6(c, "W6")
+
 	// ---- W5 -------------------------------------------------------------------
 	before := len(r.obligs)
 	ruleE2(c, "W5")
